@@ -237,7 +237,7 @@ func composeStage(b *strings.Builder, c cmpCfg, s int) {
 }
 
 func composeCfgFile(n int) []byte {
-	return []byte(fmt.Sprintf("CONSTANTS\n  N = %d\n  MaxCmd = 3\n  MaxVar = 2\n  NCtx = %d\n  Nesting = TRUE\n  TaskAllow = TRUE\n  AtomicLaunch = TRUE\n  HookKinds = {\"none\", \"ok\", \"fail\"}\nINIT TInit\nNEXT TNext\nCONSTRAINT HW\nINVARIANTS CommandsAfterDependencies StopsAtFailure FinalOK RunOnlyWhileStageRunning UpBeforeUse DownAfterAll OneUpAtATime NothingRunsAtReturn NoDoubleLaunch\nPOSTCONDITION PostCond\nCHECK_DEADLOCK FALSE\n", n, cmpNCtx))
+	return []byte(fmt.Sprintf("CONSTANTS\n  N = %d\n  MaxCmd = 3\n  MaxVar = 2\n  NCtx = %d\n  Nesting = TRUE\n  TaskAllow = TRUE\n  AtomicLaunch = TRUE\n  ErrFirst = TRUE\n  HookKinds = {\"none\", \"ok\", \"fail\"}\nINIT TInit\nNEXT TNext\nCONSTRAINT HW\nINVARIANTS CommandsAfterDependencies StopsAtFailure FinalOK RunOnlyWhileStageRunning UpBeforeUse DownAfterAll OneUpAtATime NothingRunsAtReturn NoDoubleLaunch\nPOSTCONDITION PostCond\nCHECK_DEADLOCK FALSE\n", n, cmpNCtx))
 }
 
 var reANSI = regexp.MustCompile("\x1b\\[[0-9;]*m")
@@ -258,6 +258,11 @@ func ComposeCheck(env *core.Env, rep *core.Report, k int, models ...string) map[
 		w, to := 4, 10*time.Minute
 		if strings.HasSuffix(m, "3") {
 			w, to = 8, 30*time.Minute
+		}
+		if strings.HasSuffix(m, "_errlate") {
+			mc := core.MustFail(env, core.TLCOpts{Module: "Taskctl", Config: "Taskctl_" + m + ".cfg", Workers: w, Timeout: to})
+			info["Taskctl_"+m] = map[string]interface{}{"distinct": mc.Distinct, "generated": mc.Generated, "result": "negative control (a failing stage stores its Error status, then records the graph's error: a second loop over the same included pipeline returns in between): " + mc.Violated + " violated"}
+			continue
 		}
 		if strings.HasSuffix(m, "_pinned") {
 			mc := core.MustFail(env, core.TLCOpts{Module: "Taskctl", Config: "Taskctl_" + m + ".cfg", Workers: w, Timeout: to})
